@@ -166,6 +166,12 @@ func (e *Env) StartFull(cfg *config.Dcp, o FullOpts) (*Full, error) {
 		e.Log.Add(evlog.Rec{K: "ctl.ready", VB: -1})
 		return f, nil
 	case <-f.startRet:
+		select {
+		case <-d.WaitUntilReady():
+			e.Log.Add(evlog.Rec{K: "ctl.ready", VB: -1})
+			return f, nil // became ready and stopped on its own right away (finite mode)
+		default:
+		}
 		return f, fmt.Errorf("Start returned before readiness")
 	case <-time.After(o.ReadyTimeout):
 		return f, fmt.Errorf("not ready within %v", o.ReadyTimeout)
